@@ -246,17 +246,7 @@ def r3(ck, F):
                    "a span can be returned without passing try_with_filter(self.filter): the layer would see spans its filter rejected", fn=b.path)
     # when the top of the stack is rejected by the filter, the "current span" for this layer is the newest *entered* span
     # its filter accepts: the fallback must walk the thread's entered-span stack, not the rejected span's parent links
-    lcf = F.body(P + "lookup_current_filtered")
-    lc = F.body(P + "lookup_current")
-    if lcf is not None and lc is not None:
-        walks = [t for bb, t in lcf.calls() if t["callee"].get("path") == "tracing_subscriber::registry::sharded::Registry::span_stack"]
-        it = [t for bb, t in lcf.calls() if t["callee"].get("path") == "tracing_subscriber::registry::stack::SpanStack::iter"]
-        used = any(t["callee"].get("path") == P + "lookup_current_filtered" for bb, t in lc.calls())
-        if walks and it and used:
-            ck.ok("C07.R3", "lookup_current falls back to the newest accepted span of the thread's entered-span stack", fn=lcf.path)
-        else:
-            ck.bad("C07.R3", "lookup_current falls back to the newest accepted span of the thread's entered-span stack", where(lc.raw["sp"]),
-                   "the fallback does not iterate Registry::span_stack(): what a layer sees as current would depend on the parent links of a span its filter rejected", fn=lc.path)
+    lookup_current_fallback(ck, F)
     for m, allowed in via.items():
         b = F.body(P + m)
         if not ck.anchor("C07.R3", "Context::" + m, b):
@@ -287,6 +277,51 @@ def r3(ck, F):
             ck.ok("C07.R3", "with_filter combines ids with FilterId::and", fn=wf.path)
         else:
             ck.bad("C07.R3", "with_filter combines ids with FilterId::and", where(wf.raw["sp"]), "nested filters are not combined")
+
+
+    # filter ids only accumulate on the way down a stack of nested Filtered layers: wherever a Context is built, its filter
+    # is the parent context's own, "no filter" (the root), or the parent's AND-ed with one more id -- never a replacement
+    n = 0
+    for b in F.body_list:
+        if b.crate != "tracing_subscriber":
+            continue
+        for i, j, st in b.stmts():
+            a = st.get("rv", {}).get("agg") if st["k"] == "assign" else None
+            if not a or a.get("adt") != "tracing_subscriber::subscribe::context::Context" or "filter" not in (a.get("fields") or []):
+                continue
+            o = b.origin(st["rv"]["ops"][a["fields"].index("filter")])
+            n += 1
+            key = "%s builds its Context with an accumulated filter id" % "::".join(b.path.replace("::<'a, C>", "").replace("::<'_, S>", "").split("::")[-2:])
+            ok = False
+            if o[0] == "arg" and o[1] == 1 and [x.get("n") for x in o[2]] == ["filter"]:
+                ok = True
+            elif o[0] == "call" and o[2]["callee"].get("path") == SF + "FilterId::none":
+                ok = True
+            elif o[0] == "call" and o[2]["callee"].get("path") == SF + "FilterId::and":
+                recv = b.origin(o[2]["argv"][0])
+                ok = recv[0] == "arg" and recv[1] == 1 and [x.get("n") for x in recv[2]] == ["filter"]
+            if ok:
+                ck.ok("C07.R3", key, fn=b.path)
+            else:
+                ck.bad("C07.R3", key, where(st.get("sp") or b.raw["sp"]), "the new context's filter id is %s: a layer under two nested filters would be shown spans the outer filter rejected"
+                       % (("parameter %d" % o[1]) if o[0] == "arg" else o[0]), fn=b.path)
+    if n < 3:
+        ck.bad("C07.R3", "Context constructions found", P, "only %d aggregate constructions of Context seen (expected new, none, with_filter, clone)" % n)
+
+
+def lookup_current_fallback(ck, F, rid="C07.R3"):
+    P = "tracing_subscriber::subscribe::context::Context::<'a, C>::"
+    lcf = F.body(P + "lookup_current_filtered")
+    lc = F.body(P + "lookup_current")
+    if lcf is not None and lc is not None:
+        walks = [t for bb, t in lcf.calls() if t["callee"].get("path") == "tracing_subscriber::registry::sharded::Registry::span_stack"]
+        it = [t for bb, t in lcf.calls() if t["callee"].get("path") == "tracing_subscriber::registry::stack::SpanStack::iter"]
+        used = any(t["callee"].get("path") == P + "lookup_current_filtered" for bb, t in lc.calls())
+        if walks and it and used:
+            ck.ok(rid, "lookup_current falls back to the newest accepted span of the thread's entered-span stack", fn=lcf.path)
+        else:
+            ck.bad(rid, "lookup_current falls back to the newest accepted span of the thread's entered-span stack", where(lc.raw["sp"]),
+                   "the fallback does not iterate Registry::span_stack(): what a layer sees as current would depend on the parent links of a span its filter rejected", fn=lc.path)
 
 
 # ------------------------------------------------------------------ R4
